@@ -34,9 +34,10 @@ VARIABLES l,       \* next line of the log
           reads,   \* the script of the current object
           bad,     \* the current object has already been reported: its remaining lines are only consumed
           short,   \* a read of the current object returned correct bytes but fewer than the buffer takes
-          fedok    \* the bytes fed to the decoder were the specification's
+          fedok,   \* the bytes fed to the decoder were the specification's
+          ncalls   \* read lines of the current object so far (integrity of the recording)
 
-tvars == <<dvars, l, reads, bad, short, fedok>>
+tvars == <<dvars, l, reads, bad, short, fedok, ncalls>>
 
 Log == ndJsonDeserialize("log.ndjson")
 
@@ -46,16 +47,16 @@ Head16(s) == SubSeq(s, 1, Min(Len(s), 16))
 Report(tag, e, cls, detail) ==
   PrintT(tag \o " " \o ToJson([prop |-> "C01", run |-> e.run, line |-> l, kind |-> kind, op |-> e.op, cls |-> cls, detail |-> detail]))
 
-Init == /\ l = 1 /\ reads = <<>> /\ bad = TRUE /\ short = FALSE /\ fedok = TRUE
+Init == /\ l = 1 /\ reads = <<>> /\ bad = TRUE /\ short = FALSE /\ fedok = TRUE /\ ncalls = 0
         /\ kind = "none" /\ obj = <<>> /\ enc = <<>> /\ off = 0 /\ eof = FALSE /\ emitted = <<>>
 
 World == /\ Log[l].op = "world"
-         /\ UNCHANGED <<dvars, reads, bad, short, fedok>>
+         /\ UNCHANGED <<dvars, reads, bad, short, fedok, ncalls>>
 
 NewObj ==
   LET e == Log[l] IN
   /\ e.op = "obj"
-  /\ short' = FALSE
+  /\ short' = FALSE /\ ncalls' = 0
   /\ IF e.kind \notin AllKinds
        THEN /\ Report("DRIFT", e, "unknown-kind", e.kind)
             /\ bad' = TRUE /\ fedok' = TRUE /\ reads' = <<>> /\ UNCHANGED dvars
@@ -81,6 +82,8 @@ ReadEv ==
                  want |-> Head16(pchunk), got |-> Head16(e.got)]
   IN
   /\ e.op = "read"
+  /\ ncalls' = ncalls + 1
+  /\ (e.i # ncalls + 1 => Report("DRIFT", e, "call-index-out-of-sequence", [i |-> e.i, expected |-> ncalls + 1]))
   /\ IF bad THEN UNCHANGED <<dvars, reads, bad, short, fedok>>
      ELSE
      /\ UNCHANGED <<reads, fedok>>
@@ -118,8 +121,10 @@ EndEv ==
       nonterm == Has(e, "terminated") /\ ~e.terminated      \* the bounded drain ended without end of stream
   IN
   /\ e.op = "end"
-  /\ UNCHANGED <<dvars, reads, short, fedok>>
+  /\ UNCHANGED <<dvars, reads, short, fedok, ncalls>>
   /\ bad' = TRUE
+  /\ ((e.calls # ncalls \/ e.nreads # Len(reads)) =>            \* the end line repeats what the obj / read lines said
+        Report("DRIFT", e, "recording-inconsistent", [calls |-> e.calls, readlines |-> ncalls, nreads |-> e.nreads, scripted |-> Len(reads)]))
   /\ IF Has(e, "hung") THEN Report("DRIFT", e, "real-call-did-not-return", e.reason)
      ELSE IF nonterm /\ (bad \/ via) THEN
        (* Terminates on the recorded run: the encoder (or a component the composite drains in an unbounded loop)
